@@ -139,6 +139,27 @@ def c01(ctx):
         g_parse(ctx, acc, 'c01gs', 'MC_C01',
                 'CONSTANT MaxLen = 40\nINIT Init\nNEXT Next\nINVARIANT EmitVector\nCHECK_DEADLOCK FALSE\n', PARSE_KINDS_TREE,
                 extra=['-simulate', 'num=3000', '-depth', '41', '-seed', str(ctx.seed)], workers=1)
+    # T: long flat sentences (hundreds of words, many negations and groups): acceptance class only, since
+    # their trees are deeper than the JSON readers accept
+    tr = '%s/c01long.ndjson' % ctx.work
+    ctx.t.record(['record-total', '--only', 'flat', '--count', str(pick(ctx, 150, 1500)), '--seed', str(ctx.seed)], tr, timeout=1800)
+    nrec = sum(1 for l in open(tr) if l.startswith('{'))
+    if nrec:
+        cfgt = 'CONSTANT Stride = 16\nCONSTANT CheckSpec = TRUE\nINIT Init\nNEXT Next\nINVARIANT Emit\nINVARIANT EmitCount\nCHECK_DEADLOCK FALSE\n'
+        st, js = ctx.t.run_tlc_only('c01long', 'Trace_Total', cfgt, 3000, env={'TRACE': tr})
+        if st['errors']:
+            raise ctx.t.ToolError('TLC reported: ' + ' | '.join(st['errors'][:3]))
+        outl = [json.loads(j) for j in js]
+        if not [o for o in outl if o.get('count') == nrec]:
+            raise ctx.t.ToolError('Trace_Total did not read the whole log')
+        lrecs = [json.loads(l) for l in open(tr) if l.startswith('{')]
+        acc.add_stage('c01long', st, nrec, [{'input': ctx.t.text_of(lrecs[0]['i'])[:200] + ' ...', 'parse': lrecs[0]['p']}])
+        acc.distinct += len(set(tuple(r['i']) for r in lrecs))
+        for o in outl:
+            ks = [k for k in o.get('kinds', []) if k in ('rejected-valid', 'accepted-invalid') or k.startswith('parse-')]
+            if ks:
+                r = lrecs[o['idx'] - 1]
+                acc.failures.append({'kinds': ['panic' if k.startswith('parse-') else k for k in ks], 'input': ctx.t.text_of(r['i']), 'i': r['i'], 'stage': 'c01long'})
     # T: recorded executions on random well-formed expressions and long word sequences
     t_parse(ctx, acc, 'c01t_rec', ['--mode', 'c01', '--count', str(pick(ctx, 4000, 40000)), '--seed', str(ctx.seed)], PARSE_KINDS_TREE)
     return result('model_checking', acc, True,
@@ -362,7 +383,8 @@ def c02(ctx):
     acc = Acc()
     design_check(ctx, acc, 'mix', pick(ctx, 2, 3))
     gt_sem(ctx, acc, 'c02single', 'single', 1, SEM_KINDS)
-    gt_sem(ctx, acc, 'c02ops', 'ops', pick(ctx, 3, 4), SEM_KINDS)
+    gt_sem(ctx, acc, 'c02ops', 'ops', pick(ctx, 3, 4), SEM_KINDS, extra_rec=['--warmup'])
+    gt_sem(ctx, acc, 'c02pairs', 'pairs', 1, SEM_KINDS, consts='CONSTANT MaxFiles = 60\nCONSTANT Static = FALSE\n')
     t_sem(ctx, acc, 'c02rand', ['--count', str(pick(ctx, 250, 6000)), '--seed', str(ctx.seed), '--size', '12', '--no-direct'], SEM_KINDS)
     return tv_result(acc, 'every supported primary alone with every generated member of its argument language plus 50 boundary-rich arguments; all trees up to %d nodes over 8 representative primaries and not/and/or/list; seeded random trees up to 12 nodes over the full supported vocabulary; each program executed on the directed files of Backend.tla DirectedFiles (3 base files + every leaf variant around each)' % pick(ctx, 3, 4), [])
 
@@ -371,6 +393,7 @@ def c09(ctx):
     acc = Acc()
     design_check(ctx, acc, 'c09', pick(ctx, 3, 4))
     gt_sem(ctx, acc, 'c09trees', 'c09', pick(ctx, 3, 5), SEM_KINDS)
+    gt_sem(ctx, acc, 'c09pairs', 'pairacts', 1, SEM_KINDS, consts='CONSTANT MaxFiles = 24\nCONSTANT Static = FALSE\n')
     t_sem(ctx, acc, 'c09rand', ['--count', str(pick(ctx, 300, 5000)), '--seed', str(ctx.seed), '--size', '10', '--profile', 'c09'], SEM_KINDS)
     return tv_result(acc, 'all trees up to %d nodes over {true, false, a name test, print, quit, a file print} and not/and/or/list (exhaustive), plus seeded random trees up to 10 nodes over the same leaves; outputs on files that make the name test true and false compared with FindSem.tla SemTop (implicit -print iff no action node anywhere)' % pick(ctx, 3, 5), [])
 
@@ -386,6 +409,7 @@ def c10(ctx):
 def c12(ctx):
     acc = Acc()
     gt_sem(ctx, acc, 'c12unsup', 'unsup', 1, REFUSE_KINDS, consts='CONSTANT MaxFiles = 3\nCONSTANT Static = FALSE\n')
+    gt_sem(ctx, acc, 'c12compl', 'complement', 1, REFUSE_KINDS, consts='CONSTANT MaxFiles = 3\nCONSTANT Static = FALSE\n')
     gt_sem(ctx, acc, 'c12single', 'single', 1, REFUSE_KINDS, consts='CONSTANT MaxFiles = 3\nCONSTANT Static = FALSE\n')
     t_sem(ctx, acc, 'c12rand', ['--count', str(pick(ctx, 1500, 30000)), '--seed', str(ctx.seed), '--size', '9', '--unsupported', '--no-direct'], REFUSE_KINDS, consts='CONSTANT MaxFiles = 3\nCONSTANT Static = FALSE\n')
     return tv_result(acc, 'every unsupported construct (13 tests, 3 actions, 7 format directives, the positional option, \\c) alone and in 6 positions (under not, dead AND/OR branches, beside actions); every supported primary alone (must compile); seeded random trees with 0..3 unsupported constructs; expected from the supported/unsupported partition of Vocab.tla/Format.tla; an accepted program is read and must have two top-level forms', ['the error must contain the variant name or the keyword of one offending construct'])
@@ -412,6 +436,21 @@ def c07(ctx):
             sem_validate(ctx, acc, 'c07over_' + prof, tr, SEM_KINDS)
         else:
             acc.add_stage('c07over_%s: all %d overflowing sizes refused by the parser' % (prof, len(texts)), {'states': 0, 'transitions': 0}, len(texts))
+    # numbers that contain the current second, rendered a moment after compiling: a constant must not depend on the clock
+    import time as _t
+    now = int(_t.time())
+    clk = '%s/c07clock_in.ndjson' % ctx.work
+    with open(clk, 'w') as f:
+        for d in (0, 1, 2, 3):
+            for t in ('-uid %d' % (now + d), '-links +%d' % (now + d), '-size -%dc' % (now + d), '-inum %d -o -gid %d' % (now + d, now + d + 1)):
+                f.write(json.dumps({'i': [ord(c) for c in t]}) + '\n')
+    os.environ['FPVERIF_RENDER_DELAY_MS'] = '450'
+    try:
+        trc = '%s/c07clock.ndjson' % ctx.work
+        ctx.t.record(['compile-text', '--from', clk], trc)
+    finally:
+        del os.environ['FPVERIF_RENDER_DELAY_MS']
+    sem_validate(ctx, acc, 'c07clock', trc, SEM_KINDS)
     t_sem(ctx, acc, 'c07rand', ['--count', str(pick(ctx, 150, 3000)), '--seed', str(ctx.seed), '--size', '3', '--profile', 'numeric'], SEM_KINDS | {'threads-mismatch'})
     r = result('model_checking', acc, True,
                'front end: 28 numeric slots (ids, counts, thread count, sizes with every unit, times with every unit) x {0, 1, 2^31, 2^32, 2^63, 2^64, floor(2^64/unit) for every unit, a 40-digit number, seeded random values} each -1/0/+1 x sign x 0/1/5 leading zeros, expected verdict and value from BigNat; back end: numeric primaries at their field boundaries compiled and executed by the TLA+ runtime model on files whose field is value-1, value, value+1 (per unit), thread count literal compared with the option',
@@ -425,6 +464,7 @@ def c08(ctx):
     acc = Acc()
     c08_front(ctx, acc)
     gt_sem(ctx, acc, 'c08sem', 'perms', pick(ctx, 1, 2), SEM_KINDS)
+    gt_sem(ctx, acc, 'c08pairs', 'pairs', 1, SEM_KINDS, consts='CONSTANT MaxFiles = 60\nCONSTANT Static = FALSE\n')
     r = result('model_checking', acc, True,
                'all 4096 octal values in 3- and 4-digit spelling, all 315 single clauses, two-clause lists (%s), each under the three prefixes, expected mode and check kind from ArgLang.tla (chmod fold from mode 0; InvChmod/InvOracleAgrees checked in every state); seeded 1..4-clause lists validated by TLC; back end: octal values and single clauses x 3 prefixes compiled and executed on files whose mode is the expected mode, that mode with each of the 12 bits flipped, 0, 07777 and with other type bits' % pick(ctx, '1 in 16 stratified slice', 'all 99,225'),
                RUNTIME_ASSUMPTIONS)
